@@ -219,7 +219,21 @@ End Dir.
 (* ---------- decoding the catalog columns ---------- *)
 Hypothesis DT_cat : agrees_on_catalog decode.
 
-Lemma dec_bool b : decode [if b then x01 else x00] 16 = VBool b.
+Lemma dec_u32 v : 0 <= v < 2 ^ 32 -> decode (le_enc 4 v) 26 = VU32 v.
+Proof. intros. rewrite DT_cat by (cbn; bl; lia). change (cat_decode (le_enc 4 v) 26) with (VU32 (le_dec (le_enc 4 v))). rewrite le_dec_enc by (cbn; lia). reflexivity. Qed.
+Lemma dec_name n : wf_name n -> decode (name64 n) 19 = VStr n.
+Proof.
+  intros [Hl Hn]. rewrite DT_cat by (try rewrite name64_len; cbn; lia).
+  change (cat_decode (name64 n) 19) with (VStr (cstr_take (name64 n))). unfold name64. rewrite cstr_take_padded by exact Hn. reflexivity.
+Qed.
+Lemma dec_i16 v : - 32768 <= v < 32768 -> decode (le_enc 2 (v mod 65536)) 21 = VI16 v.
+Proof.
+  intros. rewrite DT_cat by (cbn; bl; lia). change (cat_decode (le_enc 2 (v mod 65536)) 21) with (VI16 (sint16 (le_dec (le_enc 2 (v mod 65536))))).
+  rewrite le_dec_enc by (cbn; lia). f_equal. apply (sint_wrap 16 v); cbn; lia.
+Qed.
+Lemma dec_char k : decode [z2b k] 18 = VStr [z2b k].
+Proof. rewrite DT_cat by (cbn; lia). reflexivity. Qed.
+Lemma dec_bool (b : bool) : decode [if b then x01 else x00] 16 = VBool b.
 Proof. rewrite DT_cat by (destruct b; cbn; lia). destruct b; reflexivity. Qed.
 
 Lemma dattr_fits v16 a : wf_dattr a -> fits_prefix (dattr_schema v16) (dattr_ds v16 a).
@@ -243,7 +257,7 @@ Proof.
   assert (AL : b2z (z2b (da_align a)) = da_align a) by (rewrite b2z_z2b; lia).
   unfold dattr_ds, schemaPGAttrDropped, mkcol, d_u32, d_i16, d_sub, d_bool.
   cbn [app expected_row expected_value c_name c_typid].
-  rewrite !(dec_u32 decode DT_cat), (dec_name decode DT_cat), !(dec_i16 decode DT_cat), (dec_char decode DT_cat), !dec_bool
+  rewrite !dec_u32, dec_name, !dec_i16, dec_char, !dec_bool
     by (try assumption; lia).
   cbv zeta.
   unfold attr_of_row_all, dropped_of_row, align_of_row, byval_of_row, row_bool, sel_all, sel_dropped, info_all, info_dropped.
